@@ -1,5 +1,6 @@
 #!/bin/sh
 # runs every registered check of the given tier (default quick) on /repo and validates the evidence files
+# VERIF_ONLY="C01 C02" restricts the run to these checks (the evidence files of the others are validated as they are)
 TIER="${1:-quick}"
 HERE="$(cd "$(dirname "$0")/.." && pwd)"
 cd "$HERE" || exit 2
@@ -7,7 +8,7 @@ sh ./setup.sh >/dev/null || exit 2
 status=0
 # the oracles first: the reference models must reproduce the literals of the repository's own unit tests
 /venv/bin/python tools/oracle_selfcheck.py | tail -1 || status=1
-for id in $(python3 -c "import json; print(' '.join(c['property_id'] for c in json.load(open('MANIFEST.json'))['checks']))"); do
+for id in ${VERIF_ONLY:-$(python3 -c "import json; print(' '.join(c['property_id'] for c in json.load(open('MANIFEST.json'))['checks']))")}; do
     ./check "$id" --tier "$TIER" || { echo "FAILED $id"; status=1; }
 done
 python3-vt - <<'PY' || status=1
